@@ -69,13 +69,16 @@ static inline bool store_eq(const Store& A, const Store& B, bool by_obj) {
 
 // ---- builder: the independent RFC 8618 reference (key numbers and value kinds written out here, not taken from
 // format_specification.h); used as expected output of write(), as input of read() and to compare values after read()
+#define TID_SINT 200
 struct Builder {
     Store& S;
     explicit Builder(Store& s) : S(s) { tk_clear(S); S.top = K_MAP; S.started = true; }
     void put(int key, const Tok& t) { int sl = tk_slot(key); S.val[sl] = t; S.seen |= (1u << sl); S.count++; S.declared = S.count; }
     static Tok mk(uint8_t k, uint64_t u) { Tok t; t.kind = k; t.u = u; t.slen = 0; t.tid = 0; t.obj = nullptr; return t; }
     static Tok mks(const std::string& s, bool text) { Tok t = mk(text ? K_TSTR : K_BSTR, 0); t.slen = (uint8_t)s.size(); for (unsigned i = 0; i < VS_STRCAP; i++) t.s[i] = i < s.size() ? (unsigned char)s.m_data[i] : 0; return t; }
-    static Tok mki(int64_t v) { return v < 0 ? mk(K_NEG, (uint64_t)(-(v + 1))) : mk(K_UINT, (uint64_t)v); }
+    // a signed member: unsigned or negative item depending on the (symbolic) sign; the marker lets the reader model know *concretely* that the
+    // token is an integer of either kind (tok_eq ignores it), so that read_integer() has no symbolic error path
+    static Tok mki(int64_t v) { Tok t = v < 0 ? mk(K_NEG, (uint64_t)(-(v + 1))) : mk(K_UINT, (uint64_t)v); t.tid = TID_SINT; return t; }
     template<class T> void u(int key, const T& f) { put(key, mk(K_UINT, (uint64_t)f)); }
     template<class O> void uo(int key, const O& f) { if (f.m_init) put(key, mk(K_UINT, (uint64_t)f.m_val)); }
     template<class O> void io(int key, const O& f) { if (f.m_init) put(key, mki((int64_t)f.m_val)); }
